@@ -94,7 +94,7 @@ def discharge(ob, axioms, timeout_ms, model=None):
         t0 = time.time()
         s2 = z3.Solver()
         s2.set("smt.mbqi", False)
-        s2.set(timeout=min(int(timeout_ms), 5000))
+        s2.set(timeout=min(int(timeout_ms), 2000))
         for f in list(axioms) + list(model.quantified_axioms()) + list(ob.hyps) + [z3.Not(ob.goal)]:
             s2.add(f)
         if s2.check() == z3.unsat:
@@ -209,9 +209,9 @@ def verify_function(model, contract, timeout_ms=10000, body_override=None, extra
 
 def group_of(name):
     """Clause-level name: drop the trailing ':pathN' so that a verdict is reported per contract clause."""
-    parts = name.split(":")
-    if parts and parts[-1].startswith("path"):
-        parts = parts[:-1]
+    import re
+    parts = [re.sub(r"@L\d+$", "", p) for p in name.split(":")]
+    parts = [p for p in parts if not re.fullmatch(r"path\d+", p)]
     return ":".join(parts)
 
 
